@@ -360,6 +360,10 @@ def _literal_tables(tree: ast.Module) -> None:
     ast.fix_missing_locations(tree)
 
 
+_FOREIGN_ATTRS = {"path", "name", "value", "args", "filename", "errno", "strerror", "response", "parts", "parent", "stem", "suffix",
+                  "days", "seconds", "microseconds", "schema", "columns", "num_rows", "num_columns", "metadata", "fields", "type",
+                  "size", "start", "stop", "step", "hex", "int", "bytes", "mode", "closed", "names", "types", "nbytes", "key",
+                  "msg", "code", "st_mtime", "st_size", "pattern", "string", "year", "month", "day", "hour", "minute", "second"}
 BASELINE_PROPERTIES = {"row_count", "supports_cas", "atomic_write_failures"}  # the @property names of the audited tree
 
 
@@ -556,7 +560,9 @@ def _new_properties_as_methods(parsed: List[Tuple[str, ast.Module]], known: Opti
             if isinstance(x, ast.Call) and isinstance(x.func, ast.Name) and x.func.id in ("getattr", "setattr", "hasattr") and len(x.args) >= 2 \
                     and isinstance(x.args[1], ast.Constant) and isinstance(x.args[1].value, str):
                 taken.add(x.args[1].value)
-    names = {n for n in cands if n not in taken}
+    # attribute names that objects of the standard library / pyarrow / botocore carry: `entry.path`, `exc.args`, `delta.days` ...
+    # a new property of such a name keeps attribute syntax (its reads cannot be told from reads of those objects here)
+    names = {n for n in cands if n not in taken and n not in _FOREIGN_ATTRS}
     if not names:
         return
     for n in names:
